@@ -5,7 +5,8 @@ import json, os, hashlib
 import vlib
 
 N = 3
-STRATA = [("pt", 1), ("rect", 2), ("line", 3), ("ring", 5), ("holed", 4)]
+STRATA = {"quick": [("pt", 1), ("rect", 2), ("line", 3), ("ring", 5), ("holed", 4), ("holed2", 3)],
+          "thorough": [("pt", 1), ("rect", 2), ("line", 3), ("ring", 6), ("holed", 4), ("holed2", 4)]}
 CFG1 = 'CONSTANTS N = %d  K = %d  Mode = "%s"\nSPECIFICATION Spec\nINVARIANT Emit\nCHECK_DEADLOCK FALSE\n'
 CFG2 = 'SPECIFICATION Spec\nINVARIANTS Laws Emit\nCHECK_DEADLOCK FALSE\n'
 
@@ -42,14 +43,14 @@ def key(shape, g):
         return (k, (min(a[0], b[0]), min(a[1], b[1])), (max(a[0], b[0]), max(a[1], b[1])))
     if k == "line":
         return (k, canon_line([m(p) for p in shape[1]]))
-    return (k, canon_ring([m(p) for p in shape[1]]), tuple(sorted(canon_ring([m(p) for p in h]) for h in shape[2])))
+    return (k, canon_ring([m(p) for p in shape[1]]), tuple(canon_ring([m(p) for p in h]) for h in shape[2]))   # hole order is part of the encoding
 
 
 def build(tier="quick"):
     """Returns (shapes list, pair rows path, metas)."""
     metas = []
     shapes = []
-    for mode, k in STRATA:
+    for mode, k in STRATA[tier]:
         data, meta = vlib.cached_tlc("shapes-%s-%d" % (mode, k), "Gen_Shapes", CFG1 % (N, k, mode), workers=8, timeout=1800)
         metas.append(meta)
         for line in open(data):
